@@ -1438,7 +1438,30 @@ fn proof_difference(a: &Bytes, b: &Bytes) -> (bool, String) {
                         only_genesis_root = false;
                     }
                 } else {
-                    what.push(format!("header {} (#{})", i, n));
+                    // name the fields that differ
+                    let mut fields: Vec<&str> = Vec::new();
+                    let (rx, ry) = (hx.header().raw(), hy.header().raw());
+                    for (name, a, b) in [
+                        ("version", rx.version().as_slice(), ry.version().as_slice()),
+                        ("compact_target", rx.compact_target().as_slice(), ry.compact_target().as_slice()),
+                        ("timestamp", rx.timestamp().as_slice(), ry.timestamp().as_slice()),
+                        ("number", rx.number().as_slice(), ry.number().as_slice()),
+                        ("epoch", rx.epoch().as_slice(), ry.epoch().as_slice()),
+                        ("parent_hash", rx.parent_hash().as_slice(), ry.parent_hash().as_slice()),
+                        ("transactions_root", rx.transactions_root().as_slice(), ry.transactions_root().as_slice()),
+                        ("proposals_hash", rx.proposals_hash().as_slice(), ry.proposals_hash().as_slice()),
+                        ("extra_hash", rx.extra_hash().as_slice(), ry.extra_hash().as_slice()),
+                        ("dao", rx.dao().as_slice(), ry.dao().as_slice()),
+                        ("nonce", hx.header().nonce().as_slice(), hy.header().nonce().as_slice()),
+                        ("uncles_hash", hx.uncles_hash().as_slice(), hy.uncles_hash().as_slice()),
+                        ("extension", hx.extension().as_slice(), hy.extension().as_slice()),
+                        ("parent_chain_root", hx.parent_chain_root().as_slice(), hy.parent_chain_root().as_slice()),
+                    ] {
+                        if a != b {
+                            fields.push(name);
+                        }
+                    }
+                    what.push(format!("header {} (#{}): {}", i, n, fields.join("+")));
                     only_genesis_root = false;
                 }
             }
@@ -1528,7 +1551,32 @@ pub fn c01_after(ck: &mut Checker, sim: &mut Sim, session: usize, proto: Proto, 
             changed.push(format!("prove state of s{}", s));
         }
     }
-    if !changed.is_empty() {
+    // A SendLastStateProof that names another last header than the outstanding request and
+    // carries no MMR proof is the server's "my tip has changed": the client treats its last
+    // header as an announcement (its headers are not looked at). As for a SendLastState, the
+    // only trusted state that may move is this peer's prove state, and only to the announced
+    // header when that very header has already been proven for another peer.
+    let announcement_only = {
+        let named = packed::LightClientMessageReader::from_compatible_slice(data).ok().and_then(|m| match m.to_enum() {
+            packed::LightClientMessageUnionReader::SendLastStateProof(r) => {
+                Some((r.proof().is_empty(), r.last_header().header().to_entity().calc_header_hash().as_slice().to_vec()))
+            }
+            _ => None,
+        });
+        match named {
+            Some((true, hash)) => {
+                let now = after.prove.get(&session).and_then(|(p, _)| p.clone());
+                let only_own_prove_state = changed.len() == 1 && changed[0] == format!("prove state of s{}", session);
+                let copied = now.as_ref() == Some(&hash)
+                    && before.prove.iter().any(|(s2, (p2, _))| *s2 != session && p2.as_ref() == Some(&hash));
+                only_own_prove_state && copied
+            }
+            _ => false,
+        }
+    };
+    if announcement_only && !equivalent {
+        sim.stat("probe.c01.prove_state_copied_after_a_tip_changed_reply");
+    } else if !changed.is_empty() {
         sim.stat("probe.c01.proof_changed_trusted_state");
         if !equivalent {
             sim.stat("probe.c01.ALTERED_PROOF_ACCEPTED");
